@@ -84,7 +84,7 @@ theorem c12_limits_rejected (doc : Bytes) (prog : Prog) (maxDepth : Nat) (hH : d
 
 /-- C12 events.  For every element tree of the dialect (`Tree.WF`, `Proofs/C12/Render.lean`: non-empty
 names and attribute names without `< > / space = " tab CR LF ! ?`, attribute values without
-`< > space " =`, character data without `< >`; names may repeat, nest inside themselves and extend one
+`< > space "` (they may contain `=`, e.g. base64 padding), character data without `< >`; names may repeat, nest inside themselves and extend one
 another; any depth, any name length, any number of attributes), every preamble of `<?…>` / `<!…>`
 statements and character data, arbitrary trailing bytes, every callback program and every depth limit:
 `aws_xml_parse` on the rendered document returns, and the events it reported - (path, depth, name,
@@ -93,8 +93,7 @@ attributes, body when read) as bytes, in callback order - and its verdict are ex
 the exact text between start and end tag, skipped subtrees not disturbing their following siblings,
 and the run failing exactly at the first abort, descent at the depth limit, element with more than 10
 attributes, or skip / body read of an element whose name exceeds 256 bytes (events up to that point
-are still the expected ones).
-The exclusion of `=` from attribute values is necessary: see known finding C12-attr-value-equals. -/
+are still the expected ones). -/
 theorem c12_events (pre : List PreItem) (name : Bytes) (attrs : List (Bytes × Bytes)) (kids : List Tree)
     (trailer : Bytes) (prog : Prog) (maxDepth : Nat)
     (hpre : ∀ i ∈ pre, i.WF) (hwf : (Tree.elem name attrs kids).WF)
@@ -140,6 +139,13 @@ example : verdict (parse [60, 97, 62, 60, 97, 98, 62, 120, 60, 47, 97, 98, 62, 6
 example : verdict (parse [60, 97, 62, 60, 98, 62, 60, 47, 98, 62, 60, 47, 97, 62] (fun _ => .descend) 1) = some (false, 1) := by decide
 /-- `<a><b></b></a>` descending: accepted, two events -/
 example : verdict (parse [60, 97, 62, 60, 98, 62, 60, 47, 98, 62, 60, 47, 97, 62] (fun _ => .descend) 0) = some (true, 2) := by decide
+
+/-- `<a k="x=y"></a>` (the witness of the repaired defect 0df3cf8): one event, accepted -/
+example : verdict (parse [60, 97, 32, 107, 61, 34, 120, 61, 121, 34, 62, 60, 47, 97, 62] (fun _ => .skip) 0) = some (true, 1) := by decide
+/-- … and the attribute is reported with its full value `x=y` -/
+example : (match parse [60, 97, 32, 107, 61, 34, 120, 61, 121, 34, 62, 60, 47, 97, 62] (fun _ => .skip) 0 with
+    | .ok r => r.xevents [60, 97, 32, 107, 61, 34, 120, 61, 121, 34, 62, 60, 47, 97, 62]
+    | .error _ => []) = [⟨[], 1, [97], [([107], [120, 61, 121])], none⟩] := by decide
 
 -- the dialect is inhabited and `expectNode` is what one expects on a concrete tree:
 -- `<a><ab>x</ab><a></a></a>`, descend at the root, body at /0, skip at /1
